@@ -464,6 +464,32 @@ Proof.
     apply G. intros i Hi. apply in_seq in Hi. lia.
 Qed.
 
+
+(* selection invents no fitness and never ranks anybody above the elite: every member's window mean
+   is at most the elite's *)
+Lemma nth_means c (pop : list (agent P)) d j : j < length pop ->
+  nth j (means c pop) 0%Q = mean_last (eval_loop c) (a_fitness (nth j pop d)).
+Proof.
+  intros Hj. unfold means.
+  rewrite (nth_indep _ 0%Q (mean_last (eval_loop c) (a_fitness d))) by (rewrite map_length; exact Hj).
+  apply (map_nth (fun a => mean_last (eval_loop c) (a_fitness a))).
+Qed.
+
+Theorem elite_dominates_lemma rk c (pop : list (agent P)) draws e np :
+  valid_ranking (means c pop) rk -> select_with rk c pop draws = Some (e, np) ->
+  forall child, In child np ->
+    (mean_last (eval_loop c) (a_fitness child) <= mean_last (eval_loop c) (a_fitness e))%Q.
+Proof.
+  intros Hv H child Hc.
+  destruct (elite_is_best_lemma _ _ _ _ _ _ Hv H) as (p & pe & Hp & Hbest & _ & (Hfe & _) & _).
+  destruct (members_are_copies_lemma _ _ _ _ _ _ H child (or_intror Hc)) as (parent & Hin & (Hf & _)).
+  rewrite Hf, Hfe.
+  apply (In_nth _ _ pe) in Hin. destruct Hin as (j & Hj & Ej).
+  assert (Hpl : p < length pop) by (apply nth_error_Some; congruence).
+  specialize (Hbest j Hj). rewrite (nth_means c pop pe j Hj), (nth_means c pop pe p Hpl) in Hbest.
+  rewrite Ej in Hbest. apply nth_error_nth with (d := pe) in Hp. rewrite Hp in Hbest. exact Hbest.
+Qed.
+
 (* ------------------------------------------------------------------ generations *)
 Lemma append_fitness_indices : forall (pop : list (agent P)) fs,
   map a_index (append_fitness pop fs) = map a_index pop.
